@@ -120,6 +120,7 @@ func TestJobConfigs(t *testing.T) {
 		t.Skip("VERIF_TLC_OUT not set")
 	}
 	start := time.Now()
+	_ = os.Setenv("JOB_FULLSYNC_RETRY_INTERVAL", "40ms")
 	stride, offset := envInt("VERIF_STRIDE", 1), envInt("VERIF_OFFSET", 0)
 	outf, err := os.Create(os.Getenv("VERIF_RESULT"))
 	if err != nil {
@@ -140,6 +141,11 @@ func TestJobConfigs(t *testing.T) {
 		switch r.URL.Path {
 		case "/source":
 			ctx, _ := json.Marshal(w.Store.GetGlobalContext(false))
+			if r.URL.Query().Get("since") != "" || r.URL.Query().Get("from") != "" {
+				// second page: nothing more
+				fmt.Fprintf(rw, `[%s,{"id":"@continuation","token":"t1"}]`, ctx)
+				return
+			}
 			fmt.Fprintf(rw, `[%s,{"id":"%s:h1","props":{},"refs":{}},{"id":"@continuation","token":"t1"}]`, ctx, w.EntP)
 		case "/transform":
 			body := new(bytesBuf)
@@ -206,6 +212,9 @@ func TestJobConfigs(t *testing.T) {
 		}
 		r := Result{Idx: idx, Adapter: "jobs"}
 		for _, failing := range []bool{false, true} {
+			if failing && c.Sink == "HttpDatasetSink" && os.Getenv("VERIF_HTTP_FAIL") == "" {
+				continue // the HTTP sink retries a failing endpoint for seconds: thorough tier only
+			}
 			mu.Lock()
 			failSink = failing
 			mu.Unlock()
@@ -250,9 +259,15 @@ func TestJobConfigs(t *testing.T) {
 			_ = enc.Encode(r)
 		}
 	}
+	// re-runs scheduled by reRun handlers and queued fullsync retries fire on their own timers: let
+	// them finish, then leave WITHOUT closing the store (a straggler must not hit a closed database)
+	time.Sleep(2500 * time.Millisecond)
 	sum.Tables = []string{fmt.Sprintf("accepted=%d", accepted)}
 	sum.WallSeconds = time.Since(start).Seconds()
 	_ = enc.Encode(sum)
+	_ = out.Flush()
+	_ = outf.Close()
+	os.Exit(0)
 }
 
 type bytesBuf struct{ b []byte }
